@@ -261,7 +261,9 @@ def run_model(prop, meta, build, rundir, stream, ncases):
 
     def one(job):
         fn, off, n = job
-        rc, out, dt = sh(["timeout", "1700", "coqc"] + COQ_Q + [fn], cwd=COQ, timeout=1800)
+        # large case literals need a deep stack in Coq's parser/elaborator
+        rc, out, dt = sh(["bash", "-c", "ulimit -s unlimited 2>/dev/null || ulimit -s 4000000 2>/dev/null; exec \"$@\"", "--",
+                          "timeout", "1700", "coqc"] + COQ_Q + [fn], cwd=COQ, timeout=1800)
         if rc != 0:
             return ("error", off, n, out[-3000:])
         m = re.search(r"M\s*=\s*(.*?)\s*:\s*list N", out, re.S)
